@@ -46,7 +46,7 @@ package leveldb
 // key.go
 
 //@ func ensureBuffer
-//@   props C15
+//@   props C15 C04 C01 C08
 //@   mode bv
 //@   safety on
 //@   requires n >= 0
@@ -891,6 +891,21 @@ package leveldb
 //@   loop 1
 //@     invariant [C08:sum-so-far] batchLen == recsUpTo(batches, rangeidx)
 //@   ensures [C08:counts-every-record-of-the-group] result == recsUpTo(batches, len(batches))
+// C04 / C01 / C08: the header of a journal record - the sequence number of its first entry as eight little-endian
+// bytes, the number of entries as four - and its reader, which takes back exactly that and refuses anything shorter.
+//@ func encodeBatchHeader
+//@   props C04 C01 C08
+//@   mode bv
+//@   safety on
+// (a count of 2^32 or more is truncated by the format: machine arithmetic, not excluded here)
+//@   ensures [C01,C04,C08:the-header-is-the-sequence-number-and-the-count] len(result) == 12 && le64(result, 0) == seq && le32(result, 8) == uint32(batchLen)
+//@ func decodeBatchHeader
+//@   props C04 C01 C08
+//@   mode bv
+//@   safety on
+//@   ensures [C01,C04,C08:a-short-header-is-refused] len(data) < 12 ==> err != nil
+//@   ensures [C01,C04,C08:the-reader-takes-back-what-the-writer-put] err == nil ==> (len(data) >= 12 && seq == le64(data, 0) && batchLen == int(le32(data, 8)) && batchLen >= 0)
+
 //@ func writeBatchesWithHeader
 //@   props C08
 //@   safety off
